@@ -217,7 +217,7 @@ func C18(seed int64, n int) (*cq.Set, *cq.Interner) {
 	}
 	// concurrent exact totals
 	rec, reg := newRecorder()
-	const G, M = 16, 4000
+	const G, M = 16, 1000
 	pool := make([]recCall, 0, 40)
 	for len(pool) < 40 {
 		if c := randCall(r); !c.Reset {
@@ -226,15 +226,21 @@ func C18(seed int64, n int) (*cq.Set, *cq.Interner) {
 	}
 	pool[0] = recCall{Op: "CREATE", Group: "", Resource: "pods", Kind: "eval", Mode: "enforce", LV: api.LevelVersion{Level: api.LevelPrivileged, Version: api.LatestVersion()}}
 	pool[1] = recCall{Op: "UPDATE", Group: "", Resource: "pods", Kind: "exempt"}
-	want := map[string]uint64{}
+	// two different pinned versions recorded side by side (a memoised label would cross over)
+	pool[2] = recCall{Op: "CREATE", Group: "", Resource: "pods", Kind: "eval", Mode: "enforce", LV: api.LevelVersion{Level: api.LevelBaseline, Version: api.MajorMinorVersion(1, 21)}}
+	pool[3] = recCall{Op: "CREATE", Group: "", Resource: "pods", Kind: "eval", Mode: "enforce", LV: api.LevelVersion{Level: api.LevelBaseline, Version: api.MajorMinorVersion(1, 22)}}
+	counts := make([]int, len(pool))
 	var wg sync.WaitGroup
 	for g := 0; g < G; g++ {
 		seq := make([]int, M)
 		for i := range seq {
 			seq[i] = r.Intn(len(pool))
+			if i%2 == 0 {
+				seq[i] = 2 + (g+i/2)%2 // half of the traffic alternates between the two pinned versions
+			}
 		}
 		for _, i := range seq {
-			want[fmt.Sprintf("%+v", pool[i])]++
+			counts[i]++
 		}
 		wg.Add(1)
 		go func(seq []int) {
@@ -252,6 +258,22 @@ func C18(seed int64, n int) (*cq.Set, *cq.Interner) {
 	}
 	if err != nil || total != G*M {
 		set.GoFails = append(set.GoFails, cq.GoFail{What: fmt.Sprintf("concurrent recording lost or duplicated updates: %d recordings, counters sum to %d (err=%v)", G*M, total, err), Replay: map[string]interface{}{"goroutines": G, "per_goroutine": M}})
+	}
+	if err == nil {
+		// the concurrent run as one case: its multiset of calls and the gathered series
+		var terms []string
+		for i, c := range pool {
+			if counts[i] > 0 {
+				terms = append(terms, cq.App("rc", fmt.Sprint(counts[i]), callTerm(in, c)))
+			}
+		}
+		var gt []string
+		for _, g := range gs {
+			gt = append(gt, cq.Pair(cq.Pair(in.S(g.Name), in.StrList(g.Labels)), cq.N(g.Value)))
+		}
+		term := cq.App("C18Case", cq.N(1), cq.N(serverMinor), cq.App("repeat_calls", cq.List(terms)), cq.List(gt))
+		set.Cases = append(set.Cases, cq.Case{Term: term, Key: "concurrent", Nontrivial: true, Tags: []string{"concurrent"},
+			Sample: map[string]interface{}{"concurrent": true, "goroutines": G, "per_goroutine": M, "gathered": gs}, Uses: in.TakeUses()})
 	}
 	set.Extra = map[string]interface{}{"concurrent_recordings": G * M, "concurrent_total_observed": total}
 	return set, in
